@@ -7,7 +7,7 @@
    code before the fixes and are refuted below. *)
 From Coq Require Import ZArith List Bool String.
 From SX Require Import Base.Bytes Model.Unquote Model.Duration Gen.ParserTables Model.Parsers.
-From SX Require Import Proofs.ParsersDecimal Proofs.ParsersProofs.
+From SX Require Import Proofs.ParsersDecimal Proofs.ParsersProofs Proofs.UnquoteProofs.
 Import ListNotations.
 Open Scope Z_scope.
 Local Open Scope list_scope.
@@ -101,6 +101,83 @@ Theorem C18_ip_flags_exact : forall s v,
    v = rfc_bits rfc_ip_flags (split_on 44 (to_lower s))).
 Proof. exact (parse_ip_flags_exact C18_ip_table_certificate). Qed.
 
+(* ---------------------------------------------------------------- ports file, exclusion file *)
+
+(* parsePortsFile (with scanner.Err() reported): an accepted file accounts for EVERY content line of the
+   file (text between newlines, one trailing CR dropped, comment cut at #, blanks trimmed, empty lines
+   skipped), however long the lines are, in order; each is a port range string and the result is the
+   sequence of denoted ranges *)
+Theorem C18_ports_file_exact : forall data l,
+  parse_ports_file data = Some l ->
+  Forall2 (fun ln r => denotes_port_range ln (fst r) (snd r)) (content_lines 35 32 data) l.
+Proof. exact parse_ports_file_exact. Qed.
+
+(* the code before the fix returns what it read before a line of 64 KiB or more, without an error *)
+Theorem C18_ports_file_v0_refuted :
+  exists data l, parse_ports_file_v0 data = Some l /\
+                 ~ Forall2 (fun ln r => denotes_port_range ln (fst r) (snd r)) (content_lines 35 32 data) l.
+Proof. exact parse_ports_file_v0_refuted. Qed.
+
+(* round trip: every list of port ranges written one per line parses back to exactly that list *)
+Theorem C18_ports_file_roundtrip : forall l,
+  Forall port_pair_ok l -> parse_ports_file (render_ports_file l) = Some l.
+Proof. exact parse_ports_file_roundtrip. Qed.
+
+(* parseExcludeFile, for ANY behaviour of ip.ParseIPNet (the oracle f): an accepted file has handed every
+   content line to ParseIPNet, all were accepted, and the networks inserted are exactly their results in
+   order; nothing after an over-long line is dropped *)
+Theorem C18_exclude_file_exact : forall f data nets,
+  parse_exclude f data = Some nets ->
+  Forall2 (fun ln n => f ln = Some n) (content_lines 35 32 data) nets.
+Proof. exact parse_exclude_exact. Qed.
+
+Theorem C18_exclude_file_v0_refuted :
+  exists f data nets, parse_exclude_v0 f data = Some nets /\
+                      ~ Forall2 (fun ln n => f ln = Some n) (content_lines 35 32 data) nets.
+Proof. exact parse_exclude_v0_refuted. Qed.
+
+(* ---------------------------------------------------------------- rate limit *)
+
+(* parseRateLimit accepts s as (n, d) exactly when s is a count (decimal digits, optional sign, below
+   2^31, a minus only before zero), alone (then d is one second) or followed by one slash and a window
+   text w; d is the non-negative duration that Go's duration syntax (Model/Duration.v) assigns to w, where
+   a window starting with a unit reads as one such unit *)
+Theorem C18_rate_exact : forall s n d,
+  parse_rate_limit s = Some (n, d) <-> denotes_rate s n d.
+Proof. exact parse_rate_limit_exact. Qed.
+
+(* the code before the fix read the window .5s as 1.5s *)
+Theorem C18_rate_v0_refuted :
+  exists s n d, parse_rate_limit_v0 s = Some (n, d) /\ ~ denotes_rate s n d.
+Proof. exact parse_rate_limit_v0_refuted. Qed.
+
+(* ---------------------------------------------------------------- payload *)
+
+(* parsePacketPayload accepts exactly the sentences of the grammar of Go interpreted-string bodies
+   ([denotes_payload]: raw ASCII other than dquote, backslash, newline; well-formed UTF-8 sequences;
+   simple escapes; \xHH; \ooo; \uXXXX; \UXXXXXXXX) and returns exactly the bytes denoted *)
+Theorem C18_payload_exact : forall s bs,
+  wf_bytes s = true -> (parse_payload s = Some bs <-> denotes_payload s bs).
+Proof. exact payload_grammar_iff. Qed.
+
+Theorem C18_payload_functional : forall s bs bs',
+  denotes_payload s bs -> denotes_payload s bs' -> bs = bs'.
+Proof. exact denotes_payload_functional. Qed.
+
+(* round trips: every byte string written as \xHH\xHH... parses back to itself; every string of
+   printable ASCII without dquote and backslash denotes itself *)
+Theorem C18_payload_hex_roundtrip : forall bs,
+  wf_bytes bs = true -> parse_payload (hex_escape bs) = Some bs.
+Proof. exact payload_hex_roundtrip. Qed.
+
+Theorem C18_payload_ascii_literal : forall bs,
+  (forall b, In b bs -> 32 <= b <= 126 /\ b <> 34 /\ b <> 92) -> parse_payload bs = Some bs.
+Proof. exact payload_ascii_literal. Qed.
+
+(* the code before the fix turned a raw byte that is not UTF-8 into U+FFFD (three other bytes) *)
+Theorem C18_payload_v0_refuted : parse_payload_v0 [255] = Some [239; 191; 189] /\ parse_payload [255] = None.
+Proof. split; [exact payload_v0_replaces_ill_formed|vm_compute; reflexivity]. Qed.
+
 (* ---------------------------------------------------------------- non-vacuity *)
 
 Example C18_ex_range : parse_port_range (str "22-4567") = Some (22, 4567).
@@ -112,6 +189,15 @@ Proof. vm_compute. reflexivity. Qed.
 Example C18_ex_tcp : parse_tcp_flags (str "FIN,ack") = Some [str "fin"; str "ack"] /\ tcp_flag_bits [str "fin"; str "ack"] = 17.
 Proof. vm_compute. split; reflexivity. Qed.
 Example C18_ex_ip : parse_ip_flags (str "DF,evil") = Some 6.
+Proof. vm_compute. reflexivity. Qed.
+Example C18_ex_rate : parse_rate_limit (str "5000/7m") = Some (5000, 420000000000)
+  /\ parse_rate_limit (str "1000/s") = Some (1000, 1000000000)
+  /\ parse_rate_limit (str "5/.5s") = Some (5, 500000000) /\ parse_rate_limit (str "5//s") = None.
+Proof. vm_compute. repeat split; reflexivity. Qed.
+Example C18_ex_ports_file : parse_ports_file (str "80" ++ [13; 10] ++ str " 443 # tls" ++ [10; 10] ++ str "8000-8100")
+                            = Some [(80, 80); (443, 443); (8000, 8100)].
+Proof. vm_compute. reflexivity. Qed.
+Example C18_ex_payload : parse_payload (str "\x01\x02ab") = Some [1; 2; 97; 98].
 Proof. vm_compute. reflexivity. Qed.
 
 Print Assumptions C18_port_range_exact.
@@ -126,3 +212,15 @@ Print Assumptions C18_tcp_flags_bits.
 Print Assumptions C18_tcp_flags_roundtrip.
 Print Assumptions C18_ip_table_certificate.
 Print Assumptions C18_ip_flags_exact.
+Print Assumptions C18_ports_file_exact.
+Print Assumptions C18_ports_file_v0_refuted.
+Print Assumptions C18_ports_file_roundtrip.
+Print Assumptions C18_exclude_file_exact.
+Print Assumptions C18_exclude_file_v0_refuted.
+Print Assumptions C18_rate_exact.
+Print Assumptions C18_rate_v0_refuted.
+Print Assumptions C18_payload_exact.
+Print Assumptions C18_payload_functional.
+Print Assumptions C18_payload_hex_roundtrip.
+Print Assumptions C18_payload_ascii_literal.
+Print Assumptions C18_payload_v0_refuted.
